@@ -11,4 +11,14 @@ PROPS = {
         "level_text": "Proof: is_failure/is_abortable/hedge-cancel of the Gallina mirror of policy.go + util.go equal the documented truth table for every list of registrations (any subset, order, repetition) and every outcome; errors.Is / ErrorTypesMatch mirrors are proved equal to an inductive unwrap-tree relation. Tie: every run enumerates the full grid (16 subsets x 3 orders x 48 outcomes) through a Fallback, a RetryPolicy, a breaker, retry-abort and hedge-cancel on the real code plus random registrations / error trees, and coqc compares each observation with the model and with the documented rule.",
         "level_note": "Trusted: Coq kernel + vm_compute; hand-written model (tie = correspondence of this run); Go harness and error-shape mapping; errors.Is/reflect semantics mirrored for the generated shapes only; R=int. No axioms (Print Assumptions: closed).",
     },
+    "C05": {
+        "drivers": ["TestDrive_C05"],
+        "projection": "every value returned by the ten RateLimiter methods and by the limiter used as a policy, and the virtual instant at which each call returns (policy: the instant the function starts)",
+        "trusted": [],
+        "assumptions": ["configurations with interval > 0 / maxExecutions > 0 and period > 0 (others divide by zero in the code)",
+                        "requests for at least one permit; instants measured on the limiter's own stopwatch, non-decreasing"],
+        "design_ref": "DESIGN.md 4.5",
+        "level_text": "Proof: the Gallina mirror of smoothStats/burstyStats.acquirePermits and of the API wrappers refines an abstract grant ledger (earliest slot with room, k permits = k singles, refusal changes nothing) for every configuration and every call history; capacity per slot/period, earliest grant, refusal invisibility and not-early blocking are theorems about all histories. Tie: every run drives fresh limiters through generated histories (exact boundary instants, idle gaps, all ten methods + policy route) under a virtual clock and coqc compares every returned value and return instant with the model and with the ledger.",
+        "level_note": "Trusted: Coq kernel + vm_compute; hand-written model (tie = this run's correspondence); Go harness; testing/synctest virtual clock; mutex atomicity of acquirePermits (C14). No axioms.",
+    },
 }
